@@ -17,7 +17,8 @@ VALUES = {
     "datetime": [T], "other": [object(), {1, 2}, (1, 2), 3 + 4j],
 }
 SLOTS = ["time", "measurement", "tag_key", "tag_value", "field_key", "field_value", "tags", "fields"]
-ENTRIES = ["constructor", "setter", "insert", "update_static", "update_callable"]
+ENTRIES = ["constructor", "setter", "insert", "update_static", "update_callable", "update_callable_indexed",
+           "update_callable_same_key"]
 
 
 def hashable(v):
@@ -113,6 +114,21 @@ class Family:
                     db.insert(base)
                     kw = kw_for(slot, v)
                     db.update_all(**{k: (lambda old, val=val: val) for k, val in kw.items()})
+                elif entry == "update_callable_indexed":
+                    # update (not update_all) of a strict subset through a valid index
+                    db.insert(base)
+                    db.insert(tf.Point(time=T, measurement="m", tags={"a": "other"}, fields={"f": 2}))
+                    kw = kw_for(slot, v)
+                    db.update(tf.TagQuery().a == "x", **{k: (lambda old, val=val: val) for k, val in kw.items()})
+                elif entry == "update_callable_same_key":
+                    # the callable overwrites an existing key: `True == 1`, `False == 0` must not slip through
+                    if slot not in ("tag_value", "field_value"):
+                        return "skip", None
+                    db.insert(tf.Point(time=T, measurement="m", tags={"k": "x"}, fields={"k": 1, "z": 0}))
+                    if slot == "tag_value":
+                        db.update_all(tags=lambda old, val=v: {"k": val})
+                    else:
+                        db.update_all(fields=lambda old, val=v: {"k": val, "z": (val if isinstance(val, bool) and not val else 0)})
                 outcome = "accept"
             except (ValueError, TypeError) as e:
                 outcome = "reject:" + type(e).__name__
@@ -160,7 +176,7 @@ class Family:
             if bad is not None:
                 res.findings.append(Finding("impl-vs-spec", f"{where}: an ill-typed value is stored and returned: {bad[:200]}",
                                             dict(family="c14", storage=storage, entry=entry, slot=slot, type=ty, value=rv, what="stored")))
-            elif out == "accept" and not well and slot in ("tags", "fields") and entry == "update_callable":
+            elif out == "accept" and not well and slot in ("tags", "fields") and entry.startswith("update_callable"):
                 # an empty non-mapping ('' / [] / ()) returned by a callable merges nothing: nothing ill-typed can be
                 # stored through it (that is what `bad` above checks); the property's slots are the six value slots
                 continue
@@ -172,7 +188,7 @@ class Family:
                                             dict(family="c14", storage=storage, entry=entry, slot=slot, type=ty, value=rv, what=out)))
             elif model is not None:
                 macc = model[k] == "accept"
-                if macc != (out == "accept") and not (entry == "update_static"):
+                if macc != (out == "accept") and entry not in ("update_static",):
                     res.findings.append(Finding("correspondence", f"{where}: implementation {out}, generated predicate says {model[k]}",
                                                 dict(family="c14", storage=storage, entry=entry, slot=slot, type=ty, value=rv, what="model")))
         res.findings = res.findings[:12]
